@@ -48,16 +48,25 @@ fn q_spec(rng: &mut Rng, w: &World) -> QSpec {
     QSpec { value: val_spec(rng), lock: rng.chance(1, 6), unit }
 }
 
-struct RecipeSpec { text: String, ingredients: Vec<Option<QSpec>> }
+struct RecipeSpec { text: String, ingredients: Vec<Option<QSpec>>, declared_servings: Option<Vec<u32>> }
 
 fn recipe_spec(rng: &mut Rng, w: &World) -> RecipeSpec {
     let mut s = String::new();
     let mut ings: Vec<Option<QSpec>> = vec![];
     let mut defined: Vec<&str> = vec![];
-    match rng.below(6) {
-        0 => s.push_str(&format!("---\nservings: {}\n---\n", rng.range(1, 12))),
-        1 => s.push_str(&format!("---\nservings: {}|{}\n---\n", rng.range(1, 6), rng.range(7, 12))),
-        2 => s.push_str(&format!("---\ntitle: test\nservings: [{}, {}]\n---\n", rng.range(1, 6), rng.range(7, 12))),
+    // servings as written, in declaration order (the first one is the base of scale_to_servings)
+    let mut declared_servings: Option<Vec<u32>> = None;
+    match rng.below(8) {
+        0 => { let a = rng.range(1, 12) as u32; s.push_str(&format!("---\nservings: {a}\n---\n")); declared_servings = Some(vec![a]); }
+        1 => { let (a, b) = (rng.range(1, 6) as u32, rng.range(7, 12) as u32); s.push_str(&format!("---\nservings: {a}|{b}\n---\n")); declared_servings = Some(vec![a, b]); }
+        2 => { let (a, b) = (rng.range(1, 6) as u32, rng.range(7, 12) as u32); s.push_str(&format!("---\ntitle: test\nservings: [{a}, {b}]\n---\n")); declared_servings = Some(vec![a, b]); }
+        3 => { // not in ascending order
+            let mut v: Vec<u32> = vec![rng.range(7, 12) as u32, rng.range(1, 3) as u32, rng.range(4, 6) as u32];
+            if rng.chance(1, 2) { v.truncate(2); }
+            let txt = v.iter().map(|x| x.to_string()).collect::<Vec<_>>();
+            match rng.below(3) { 0 => s.push_str(&format!("---\nservings: {}\n---\n", txt.join("|"))), 1 => s.push_str(&format!("---\nservings: [{}]\n---\n", txt.join(", "))), _ => s.push_str(&format!(">> servings: {}\n\n", txt.join("|"))) }
+            declared_servings = Some(v);
+        }
         _ => {}
     }
     let n = rng.range(1, 8);
@@ -79,7 +88,7 @@ fn recipe_spec(rng: &mut Rng, w: &World) -> RecipeSpec {
         if rng.chance(1, 4) { s.push_str("\n\n"); }
         if rng.chance(1, 12) { s.push_str("\n= Part two =\n\n"); }
     }
-    RecipeSpec { text: s, ingredients: ings }
+    RecipeSpec { text: s, ingredients: ings, declared_servings }
 }
 
 // ---------------------------------------------------------------- encoding / rendering
@@ -300,7 +309,10 @@ fn recipe_case(ctx: &mut Ctx, w: &World, parser: &CooklangParser, spec: &RecipeS
     match guarded(|| parse().map(|r| r.scale_to_servings(target, &w.conv))) {
         Ok(Some(after)) => {
             ctx.case(format!("sc {} servings {target} {sspec} {items}", w.tag), render_scaled(&after), nontrivial, inp.clone());
-            let base = servings.as_ref().and_then(|s| s.first().copied()).unwrap_or(1);
+            // the base is the FIRST DECLARED value (read from what the generator wrote, not from the API)
+            if force_servings.is_none() { if let (Some(d), Some(api)) = (&spec.declared_servings, &servings) { if d != api {
+                ctx.oracle_fail(inp.clone(), format!("servings() returns {api:?}, declared in this order: {d:?}"), "c08:servings-order".into()); } } }
+            let base = match (&force_servings, &spec.declared_servings) { (Some(f), _) => f.first().copied(), (None, Some(d)) => d.first().copied(), (None, None) => servings.as_ref().and_then(|s| s.first().copied()) }.unwrap_or(1);
             if base > 0 && target > 0 {
                 let fs = target as f64 / base as f64;
                 if let Ok(Some(direct)) = guarded(|| parse().map(|r| r.scale(fs, &w.conv))) {
@@ -342,7 +354,7 @@ non-trivial = the recipe has an ingredient quantity; distinct = distinct request
         let mut files: Vec<_> = rd.filter_map(|e| e.ok()).map(|e| e.path()).collect();
         files.sort();
         for p in files { if let Ok(text) = std::fs::read_to_string(&p) {
-            for &f in &factors { recipe_case(ctx, &w, &parser, &RecipeSpec { text: text.clone(), ingredients: vec![] }, f, 3, None); }
+            for &f in &factors { recipe_case(ctx, &w, &parser, &RecipeSpec { text: text.clone(), ingredients: vec![], declared_servings: None }, f, 3, None); }
             ctx.count("corpus");
         } }
     }
